@@ -216,12 +216,15 @@ def spec (c : Case) : SpecOut :=
     | .inline _ => []
   { langs := dedupKeys (content ++ named) [], langsContent := dedupKeys content [], plans := plans }
 
-/-- `Spec.text`: the text demanded for (element key, kind, language) -/
-def text (c : Case) (key kind lang : Str) : Option Str :=
-  match lookup key (spec c).plans with
+/-- the text demanded for (element key, kind, language), given the plans of the whole case -/
+def textOf (o : SpecOut) (key kind lang : Str) : Option Str :=
+  match lookup key o.plans with
   | none => none
   | some ps => match lookup kind ps with
     | none => none
     | some p => demanded kind p lang
+
+/-- `Spec.text`: the text demanded for (element key, kind, language) -/
+def text (c : Case) (key kind lang : Str) : Option Str := textOf (spec c) key kind lang
 
 end Pyxv.TextSpec
